@@ -1184,7 +1184,23 @@ func eq(lhs, rhs reflect.Value) bool {
 	// All other types (e.g. functions) are
 	// compared directly. Two functions with the same contents
 	// are not considered equal unless they're the same
-	// physical object in memory.
+	// physical object in memory. Note that we compare the
+	// underlying values, not the reflect.Values: the same
+	// function retrieved from a variable and from an array
+	// has two different reflect.Values.
+	if lhs.Kind() == reflect.Interface {
+		lhs = lhs.Elem()
+	}
+
+	if rhs.Kind() == reflect.Interface {
+		rhs = rhs.Elem()
+	}
+
+	if lhs.IsValid() && rhs.IsValid() &&
+		lhs.CanInterface() && rhs.CanInterface() &&
+		lhs.Type().Comparable() && rhs.Type().Comparable() {
+		return lhs.Interface() == rhs.Interface()
+	}
 
 	return lhs == rhs
 }
